@@ -59,7 +59,20 @@ func c26Callees() [][]byte {
 		/* B6 */ P().Push(0).Push(0).Push(0).Push(0).Push(1).PushAddr(c26EOA).Push(0).Op(progx.CALL).Push(0).Op(progx.MSTORE).Return(0, 32).Bytes(),
 		/* B7 */ P().Push(0).Op(progx.TLOAD).Push(0).Op(progx.MSTORE).Push(1).Op(progx.SLOAD).Push(32).Op(progx.MSTORE).Return(0, 64).Bytes(),
 		/* B8 */ P().Op(progx.CALLER, progx.SELFDESTRUCT).Bytes(),
+		/* B9 */ c26Toucher().Revert(0, 0).Bytes(),
+		/* B10 */ c26Toucher().Op(progx.STOP).Bytes(),
+		/* B11 */ c26Toucher().Op(progx.INVALID).Bytes(),
+		/* B12 */ P().Op(progx.STOP).Bytes(),
+		/* B13 */ P().CallKind(progx.CALL, c26B(10), nil, 0).Op(progx.POP).Revert(0, 0).Bytes(),
+		/* B14 */ P().Create(progx.CREATE, c26Inits()["ok"], 0, 0).Op(progx.POP).Revert(0, 0).Bytes(),
+		/* B15 */ P().Create(progx.CREATE, c26Inits()["ok"], 0, 0).Op(progx.POP, progx.STOP).Bytes(),
 	}
+}
+
+// c26Toucher: BALANCE(c26None), SLOAD(5), EXTCODESIZE(collision target 7): warms one account that does not exist, one
+// own storage slot and one existing account.
+func c26Toucher() *progx.Prog {
+	return c26P().PushAddr(c26None).Op(progx.BALANCE, progx.POP).Push(5).Op(progx.SLOAD, progx.POP).PushAddr(c26Collide(7)).Op(progx.EXTCODESIZE, progx.POP)
 }
 
 // c26World is the pre-state: sender, contract A running `code` (balance 1000, slots 1=1, 2=2), callees
@@ -74,6 +87,9 @@ func c26World(code []byte) refevm.World {
 		w[c26B(i)] = &refevm.Account{Nonce: 1, Balance: big.NewInt(10), Code: c, Storage: map[common.Hash]common.Hash{c26Slot(1): c26Slot(1)}}
 	}
 	w[c26EOA] = &refevm.Account{Balance: big.NewInt(1), Storage: map[common.Hash]common.Hash{}}
+	// pre-allocated CREATE2 targets of A (collisions): nonce only, code (storage only: see c26EIP7610)
+	w[c26Collide(7)] = &refevm.Account{Nonce: 1, Balance: new(big.Int), Storage: map[common.Hash]common.Hash{}}
+	w[c26Collide(8)] = &refevm.Account{Nonce: 1, Balance: new(big.Int), Code: []byte{0x00}, Storage: map[common.Hash]common.Hash{}}
 	// EIP-7702 delegated accounts: D1 -> B5 (gas reporter), D2 -> D1 (chain: not followed), D3 -> precompile 0x04 (runs as empty code), D4 -> B1
 	for i, t := range []common.Address{c26B(5), c26D(1), common.BytesToAddress([]byte{4}), c26B(1)} {
 		w[c26D(i+1)] = &refevm.Account{Nonce: 1, Balance: big.NewInt(1), Code: append([]byte{0xef, 0x01, 0x00}, t[:]...), Storage: map[common.Hash]common.Hash{}}
@@ -154,13 +170,10 @@ func c26GasGrid(r *mc.R, st *c26Stats, f c26Fork, pre *c26Pre, desc map[string]a
 	if n == c26Ample { // consumed everything: no boundary to probe
 		return
 	}
-	if lite, _ := desc["lite"].(bool); lite && r.Quick() {
-		return // quick tier, longest sequences: ample gas only
+	if lite, _ := desc["lite"].(bool); lite {
+		return // longest sequences of the tier: ample gas only
 	}
 	run(n-1, "need-1")
-	if lite, _ := desc["lite"].(bool); lite {
-		return
-	}
 	run(n, "need")
 	if r.Thorough() {
 		run(n+1, "need+1")
@@ -179,7 +192,7 @@ func TestVerif_C26(t *testing.T) {
 		r.Bound("ample_gas", c26Ample)
 		r.Assume("oracle = internal/verif/refevm, a naive big-integer interpreter + transaction envelope written from the Yellow Paper and the EIP texts (EELS is not installed); no code shared with core/vm or core/state_transition.go")
 		r.Assume("sender recovery is bypassed (fixed-sender Signer); block context is built directly (no header / system calls / withdrawals / requests)")
-		r.Assume("pre-states contain no EIP-161-empty accounts; no precompile execution, no EIP-7702 delegations")
+		r.Assume("pre-states contain no EIP-161-empty accounts and no accounts with nonce 0, no code and non-empty storage (EIP-7610 targets: go-ethereum hard-codes the 28 mainnet ones and deploys onto synthetic ones where the specification collides; strict cases in c26EIP7610, off by default); no precompile execution")
 		part := os.Getenv("VERIF_C26_PART") // debugging aid: run one part only
 		if r.Replaying() {
 			var d struct {
@@ -195,7 +208,7 @@ func TestVerif_C26(t *testing.T) {
 		for _, p := range []struct {
 			name string
 			run  func(*mc.R, *c26Stats)
-		}{{"units", c26Sequences}, {"twotx", c26TwoTx}, {"opgrid", c26OpGrids}, {"setcode", c26SetCode}, {"envelope", c26Envelope}} {
+		}{{"eip7610", c26EIP7610}, {"units", c26Sequences}, {"warm", c26Warm}, {"twotx", c26TwoTx}, {"opgrid", c26OpGrids}, {"setcode", c26SetCode}, {"envelope", c26Envelope}} {
 			if (part == "" || part == p.name) && !r.Expired() {
 				p.run(r, st)
 			}
@@ -798,11 +811,64 @@ func c26OpGrids(r *mc.R, st *c26Stats) {
 type c26Unit struct {
 	name string
 	emit func(p *progx.Prog, res uint64) // res: memory offset where the unit may store its one-word result
+	// emitCtx (instead of emit): the unit depends on / updates the generation-time knowledge about the creations
+	// contract A has performed so far in the program (creator nonce, would-be address of the latest creation).
+	emitCtx func(p *progx.Prog, res uint64, ctx *c26Ctx)
 }
+
+// c26Ctx is what the generator knows while laying out a program for contract A: A's nonce (1 in the pre-state,
+// incremented by every CREATE/CREATE2 that gets past the balance check) and the would-be address of the latest
+// creation unit, whether or not that creation succeeds at run time. Nested executions (self-call) may make the
+// run-time nonce differ; the computed address is then simply another constant.
+type c26Ctx struct {
+	nonce uint64
+	last  *common.Address
+}
+
+func c26NewCtx() *c26Ctx { return &c26Ctx{nonce: 1} }
+
+// target: address of the latest creation, or the address the next CREATE will get if there was none yet.
+func (c *c26Ctx) target() common.Address {
+	if c.last != nil {
+		return *c.last
+	}
+	return refevm.CreateAddress(c26A, c.nonce)
+}
+
+func (u c26Unit) gen(p *progx.Prog, res uint64, ctx *c26Ctx) {
+	if u.emitCtx != nil {
+		u.emitCtx(p, res, ctx)
+	} else {
+		u.emit(p, res)
+	}
+}
+
+func c26Inits() map[string][]byte {
+	P := c26P
+	return map[string][]byte{
+		"ok":      P().Push(0).Push(0).Op(progx.MSTORE8).Return(0, 1).Bytes(),
+		"sstore":  P().Sstore(0, 1).Op(progx.CALLVALUE).Push(0).Op(progx.MSTORE).Return(0, 32).Bytes(),
+		"revert":  P().Push(0xbad).Push(0).Op(progx.MSTORE).Revert(0, 32).Bytes(),
+		"invalid": P().Op(progx.INVALID).Bytes(),
+		"oog":     P().Push(1).PushBig(c26Pow2(64)).Op(progx.MSTORE).Bytes(), // memory expansion nobody can pay
+		"ef":      P().Push(0xef).Push(0).Op(progx.MSTORE8).Return(0, 1).Bytes(),
+		"empty":   {},
+		"suicide": P().Op(progx.CALLER, progx.SELFDESTRUCT).Bytes(),
+	}
+}
+
+func c26Salt(i byte) (s [32]byte) { s[31] = i; return }
+
+// pre-allocated CREATE2 targets of contract A (init code "ok"): salt 7 -> account with nonce 1, salt 8 -> account with
+// code. Creating onto them collides. (salt 9 -> account with storage only, EIP-7610: only in part c26EIP7610.)
+func c26Collide(i byte) common.Address { return refevm.Create2Address(c26A, c26Salt(i), c26Inits()["ok"]) }
 
 func c26Units() []c26Unit {
 	var us []c26Unit
-	add := func(name string, emit func(p *progx.Prog, res uint64)) { us = append(us, c26Unit{name, emit}) }
+	add := func(name string, emit func(p *progx.Prog, res uint64)) { us = append(us, c26Unit{name: name, emit: emit}) }
+	addCtx := func(name string, emit func(p *progx.Prog, res uint64, ctx *c26Ctx)) {
+		us = append(us, c26Unit{name: name, emitCtx: emit})
+	}
 	store := func(p *progx.Prog, res uint64) { p.Push(res).Op(progx.MSTORE) }
 	u64 := func(v uint64) *uint64 { return &v }
 	// storage
@@ -890,26 +956,60 @@ func c26Units() []c26Unit {
 	add("RETURNDATASIZE", func(p *progx.Prog, res uint64) { p.Op(progx.RETURNDATASIZE); store(p, res) })
 	add("RETURNDATACOPY(all)", func(p *progx.Prog, res uint64) { p.Op(progx.RETURNDATASIZE).Push(0).Push(res).Op(progx.RETURNDATACOPY) })
 	add("RETURNDATACOPY(oob)", func(p *progx.Prog, res uint64) { p.Op(progx.RETURNDATASIZE).Push(1).Push(res).Op(progx.RETURNDATACOPY) })
-	// creations; the new address (or 0) is stored
-	P := c26P
-	inits := map[string][]byte{
-		"ok":      P().Push(0).Push(0).Op(progx.MSTORE8).Return(0, 1).Bytes(),
-		"sstore":  P().Sstore(0, 1).Op(progx.CALLVALUE).Push(0).Op(progx.MSTORE).Return(0, 32).Bytes(),
-		"revert":  P().Push(0xbad).Push(0).Op(progx.MSTORE).Revert(0, 32).Bytes(),
-		"invalid": P().Op(progx.INVALID).Bytes(),
-		"ef":      P().Push(0xef).Push(0).Op(progx.MSTORE8).Return(0, 1).Bytes(),
-		"empty":   {},
-		"suicide": P().Op(progx.CALLER, progx.SELFDESTRUCT).Bytes(),
+	// creations; the new address (or 0) is stored. Every creation records its would-be address in the context.
+	inits := c26Inits()
+	create := func(name string, op byte, init string, value, salt uint64) {
+		code := inits[init]
+		addCtx(name, func(p *progx.Prog, res uint64, ctx *c26Ctx) {
+			p.Create(op, code, value, salt)
+			store(p, res)
+			if value > 1001 {
+				return // insufficient balance: neither a nonce bump nor an address
+			}
+			var a common.Address
+			if op == progx.CREATE {
+				a = refevm.CreateAddress(c26A, ctx.nonce)
+			} else {
+				a = refevm.Create2Address(c26A, c26Salt(byte(salt)), code)
+			}
+			ctx.last = &a
+			ctx.nonce++
+		})
 	}
-	for _, n := range []string{"ok", "sstore", "revert", "invalid", "ef", "empty", "suicide"} {
-		init := inits[n]
-		add("CREATE("+n+")", func(p *progx.Prog, res uint64) { p.Create(progx.CREATE, init, 0, 0); store(p, res) })
+	for _, n := range []string{"ok", "sstore", "revert", "invalid", "oog", "ef", "empty", "suicide"} {
+		create("CREATE("+n+")", progx.CREATE, n, 0, 0)
 	}
-	add("CREATE(sstore,v=1)", func(p *progx.Prog, res uint64) { p.Create(progx.CREATE, inits["sstore"], 1, 0); store(p, res) })
-	add("CREATE(ok,v=5000)", func(p *progx.Prog, res uint64) { p.Create(progx.CREATE, inits["ok"], 5000, 0); store(p, res) })
-	add("CREATE2(ok,salt=0)", func(p *progx.Prog, res uint64) { p.Create(progx.CREATE2, inits["ok"], 0, 0); store(p, res) })
-	add("CREATE2(sstore,salt=1,v=1)", func(p *progx.Prog, res uint64) { p.Create(progx.CREATE2, inits["sstore"], 1, 1); store(p, res) })
-	add("CREATE2(suicide,salt=0)", func(p *progx.Prog, res uint64) { p.Create(progx.CREATE2, inits["suicide"], 0, 0); store(p, res) })
+	create("CREATE(sstore,v=1)", progx.CREATE, "sstore", 1, 0)
+	create("CREATE(ok,v=5000)", progx.CREATE, "ok", 5000, 0)
+	create("CREATE2(ok,salt=0)", progx.CREATE2, "ok", 0, 0)
+	create("CREATE2(sstore,salt=1,v=1)", progx.CREATE2, "sstore", 1, 1)
+	create("CREATE2(suicide,salt=0)", progx.CREATE2, "suicide", 0, 0)
+	create("CREATE2(revert,salt=2)", progx.CREATE2, "revert", 0, 2)
+	create("CREATE2(invalid,salt=3)", progx.CREATE2, "invalid", 0, 3)
+	create("CREATE2(ok,salt=7,collides-nonce)", progx.CREATE2, "ok", 0, 7)
+	create("CREATE2(ok,salt=8,collides-code)", progx.CREATE2, "ok", 0, 8)
+	// touching the (would-be) address of the latest creation: warm per EIP-2929 even if the creation failed or collided
+	touch := func(name string, f func(p *progx.Prog, a common.Address)) {
+		addCtx(name, func(p *progx.Prog, res uint64, ctx *c26Ctx) { f(p, ctx.target()); store(p, res) })
+	}
+	touch("BALANCE(created)", func(p *progx.Prog, a common.Address) { p.PushAddr(a).Op(progx.BALANCE) })
+	touch("EXTCODESIZE(created)", func(p *progx.Prog, a common.Address) { p.PushAddr(a).Op(progx.EXTCODESIZE) })
+	touch("EXTCODEHASH(created)", func(p *progx.Prog, a common.Address) { p.PushAddr(a).Op(progx.EXTCODEHASH) })
+	touch("EXTCODECOPY(created,0,0,8)", func(p *progx.Prog, a common.Address) {
+		p.Push(8).Push(0).Push(0).PushAddr(a).Op(progx.EXTCODECOPY).Op(progx.MSIZE)
+	})
+	touch("CALL(created)", func(p *progx.Prog, a common.Address) { p.CallKind(progx.CALL, a, nil, 0) })
+	touch("STATICCALL(created)", func(p *progx.Prog, a common.Address) { p.CallKind(progx.STATICCALL, a, nil, 0) })
+	addCtx("SELFDESTRUCT(created)", func(p *progx.Prog, res uint64, ctx *c26Ctx) { p.PushAddr(ctx.target()).Op(progx.SELFDESTRUCT) })
+	// warmth established inside a child frame: B9 touches BALANCE(none) and its slot 5 and reverts, B10 does the same and
+	// succeeds, B11 halts, B13 calls B10 and reverts, B14 creates and reverts, B15 creates and succeeds
+	for _, i := range []int{9, 10, 11, 13, 14, 15} {
+		call(fmt.Sprintf("CALL(B%d)", i), progx.CALL, c26B(i), nil, 0)
+	}
+	call("STATICCALL(B9)", progx.STATICCALL, c26B(9), nil, 0)
+	acct("EXTCODESIZE(created-by-B14)", progx.EXTCODESIZE, refevm.CreateAddress(c26B(14), 1))
+	acct("BALANCE(created-by-B15)", progx.BALANCE, refevm.CreateAddress(c26B(15), 1))
+	acct("BALANCE(collides-nonce)", progx.BALANCE, c26Collide(7))
 	// terminals
 	add("STOP", func(p *progx.Prog, res uint64) { p.Op(progx.STOP) })
 	add("REVERT(0,32)", func(p *progx.Prog, res uint64) { p.Revert(0, 32) })
@@ -923,8 +1023,9 @@ func c26Units() []c26Unit {
 // c26SeqProgram: units in order (unit i stores its result at 0x40+32*i), then RETURN(0, MSIZE).
 func c26SeqProgram(us []c26Unit, seq []int) []byte {
 	p := c26P()
+	ctx := c26NewCtx()
 	for i, u := range seq {
-		us[u].emit(p, 0x40+32*uint64(i))
+		us[u].gen(p, 0x40+32*uint64(i), ctx)
 	}
 	p.Op(progx.MSIZE, progx.PUSH0, progx.RETURN)
 	return p.Bytes()
@@ -961,10 +1062,120 @@ func c26Sequences(r *mc.R, st *c26Stats) {
 			pre := base.withCode(c26SeqProgram(us, seq))
 			d := map[string]any{"part": "units", "seq": names}
 			if len(seq) >= maxLen && maxLen > 1 {
-				d["lite"] = true // longest sequences of the tier: gas grid {need-1, ample} only
+				d["lite"] = true // longest sequences of the tier: ample gas only
 			}
 			c26GasGrid(r, st, sh.f, pre, d, func(gas uint64) *refevm.Tx {
 				return c26CallTx(gas, 1, []byte{0xde, 0xad, 0xbe, 0xef})
+			})
+			if len(seq) < maxLen {
+				for u := range us {
+					rec(append(append([]int{}, seq...), u))
+				}
+			}
+		}
+		rec([]int{sh.first})
+	})
+}
+
+// ---------------------------------------------------------------------------
+// EIP-7610 (creation onto an account with nonce 0, no code and NON-EMPTY STORAGE must fail like a collision).
+// go-ethereum at this commit implements the rule through a hard-coded list of the 28 such mainnet accounts
+// (core/vm/eip7610.go) instead of looking at the storage, and skips the corresponding execution-spec tests
+// (tests/state_test.go: eip7610_create_collision); on a synthetic pre-state it therefore deploys where the specification
+// (and the reference) reports a collision. Such accounts cannot come into existence after EIP-161, so the general
+// spaces exclude them (recorded as an assumption). This part holds the three strict cases; it is disabled by default
+// because it fails on the unchanged tree (reported to the coordinator); VERIF_C26_EIP7610=1 enables it.
+func c26EIP7610(r *mc.R, st *c26Stats) {
+	if os.Getenv("VERIF_C26_EIP7610") != "1" {
+		return
+	}
+	for _, f := range c26Forks() {
+		w := c26World([]byte{0})
+		w[c26Collide(9)] = &refevm.Account{Balance: big.NewInt(1), Storage: map[common.Hash]common.Hash{c26Slot(1): c26Slot(1)}}
+		code := c26P().Create(progx.CREATE2, c26Inits()["ok"], 0, 9).Push(0).Op(progx.MSTORE).Return(0, 32).Bytes()
+		pre := c26NewPre(w).withCode(code)
+		c := map[string]any{"part": "eip7610", "fork": f.name, "kind": "CREATE2 onto storage-only account"}
+		r.Case(c, func() error {
+			res, err := c26RunBlock(f, pre, c26BlockGas, []*refevm.Tx{c26CallTx(c26Ample, 0, nil)})
+			if len(res) > 0 {
+				st.add("eip7610:" + c26Classify(res))
+			}
+			return err
+		})
+	}
+}
+
+// ---------------------------------------------------------------------------
+// Part 3b: access-set persistence. Sequences over the sub-alphabet of units that establish or observe warmth
+// (creations incl. failing and colliding ones, touches of the would-be address, callees that touch and then revert /
+// halt / succeed, nested creations in reverted frames), run with an EIP-2930 access list that preloads the addresses
+// and slots concerned: whatever a frame does, preloaded entries stay warm; without the list (part 3) warmth added in a
+// failed frame is rolled back, while the address of a creation is warm from the moment CREATE is executed.
+
+func c26WarmUnit(name string) bool {
+	for _, p := range []string{"CREATE", "BALANCE(created", "EXTCODESIZE(created", "EXTCODEHASH(created", "EXTCODECOPY(created", "CALL(created)", "STATICCALL(created)",
+		"SELFDESTRUCT(created)", "CALL(B9)", "CALL(B10)", "CALL(B11)", "CALL(B13)", "CALL(B14)", "CALL(B15)", "STATICCALL(B9)", "BALANCE(none)", "EXTCODEHASH(none)",
+		"BALANCE(collides-nonce)", "REVERT(0,32)"} {
+		if strings.HasPrefix(name, p) {
+			return true
+		}
+	}
+	return false
+}
+
+func c26Warm(r *mc.R, st *c26Stats) {
+	all := c26Units()
+	var us []c26Unit
+	for _, u := range all {
+		if c26WarmUnit(u.name) {
+			us = append(us, u)
+		}
+	}
+	maxLen := mc.Pick(r, 2, 3)
+	r.Bound("warm.alphabet", len(us))
+	r.Bound("warm.max_sequence_length", maxLen)
+	inits := c26Inits()
+	al := []refevm.AccessTuple{
+		{Address: c26None},
+		{Address: refevm.CreateAddress(c26A, 1)},
+		{Address: refevm.Create2Address(c26A, c26Salt(2), inits["revert"])},
+		{Address: refevm.Create2Address(c26A, c26Salt(3), inits["invalid"])},
+		{Address: c26Collide(7)}, {Address: c26Collide(8)},
+		{Address: refevm.CreateAddress(c26B(14), 1)},
+		{Address: c26B(9), Keys: []common.Hash{c26Slot(5)}},
+		{Address: c26B(10), Keys: []common.Hash{c26Slot(5)}},
+	}
+	type shard struct {
+		f     c26Fork
+		first int
+	}
+	var shards []shard
+	for _, f := range c26Forks() {
+		for i := range us {
+			shards = append(shards, shard{f, i})
+		}
+	}
+	r.Parallel(len(shards), func(si int) {
+		sh := shards[si]
+		base := c26NewPre(c26World([]byte{0}))
+		var rec func(seq []int)
+		rec = func(seq []int) {
+			if r.Expired() {
+				return
+			}
+			names := make([]string, len(seq))
+			for i, u := range seq {
+				names[i] = us[u].name
+			}
+			pre := base.withCode(c26SeqProgram(us, seq))
+			d := map[string]any{"part": "warm", "seq": names, "accessList": "preloaded"}
+			if len(seq) >= maxLen {
+				d["lite"] = true
+			}
+			c26GasGrid(r, st, sh.f, pre, d, func(gas uint64) *refevm.Tx {
+				t := c26CallTx(gas, 1, nil)
+				t.AccessList = al
+				return t
 			})
 			if len(seq) < maxLen {
 				for u := range us {
@@ -982,7 +1193,7 @@ func c26Sequences(r *mc.R, st *c26Stats) {
 
 // c26StateChanging: units that can leave a trace for the next transaction (storage, balances, nonces, new accounts).
 func c26StateChanging(name string) bool {
-	for _, p := range []string{"SSTORE", "TSTORE", "CALL(B1", "CALL(B4", "CALL(B6", "CALL(B8", "CALL(none,v", "CALL(eoa", "DELEGATECALL", "CALLCODE", "CREATE", "SELFDESTRUCT", "BALANCE(B1)", "REVERT"} {
+	for _, p := range []string{"SSTORE", "TSTORE", "CALL(B1", "CALL(B4", "CALL(B6", "CALL(B8", "CALL(B15", "CALL(none,v", "CALL(eoa", "DELEGATECALL", "CALLCODE", "CREATE", "SELFDESTRUCT", "BALANCE(B1)", "REVERT"} {
 		if strings.HasPrefix(name, p) {
 			return true
 		}
@@ -992,7 +1203,7 @@ func c26StateChanging(name string) bool {
 
 // c26Observing: units whose result or cost depends on what an earlier transaction left behind.
 func c26Observing(name string) bool {
-	for _, p := range []string{"SLOAD", "TLOAD", "BALANCE", "SELFBALANCE", "EXTCODE", "GAS", "CALL(B5)", "CALL(B7)", "STATICCALL(B7)", "CALL(none)", "CALL(D1)", "CALL(D4)"} {
+	for _, p := range []string{"SLOAD", "TLOAD", "BALANCE", "SELFBALANCE", "EXTCODE", "GAS", "CALL(B5)", "CALL(B7)", "STATICCALL(B7)", "CALL(none)", "CALL(D1)", "CALL(D4)", "CALL(created)", "STATICCALL(created)", "CALL(B9)", "CALL(B10)"} {
 		if strings.HasPrefix(name, p) {
 			return true
 		}
@@ -1037,11 +1248,12 @@ func c26TwoTx(r *mc.R, st *c26Stats) {
 			if r.Quick() && !c26StateChanging(us[u2].name) && !c26Observing(us[u2].name) {
 				continue
 			}
+			ctx := c26NewCtx() // the second transaction knows what the first one created
 			a := c26P()
-			us[sh.u1].emit(a, 0x40)
+			us[sh.u1].gen(a, 0x40, ctx)
 			a.Op(progx.MSIZE, progx.PUSH0, progx.RETURN)
 			b := c26P()
-			us[u2].emit(b, 0x40)
+			us[u2].gen(b, 0x40, ctx)
 			b.Op(progx.MSIZE, progx.PUSH0, progx.RETURN)
 			// CALLDATASIZE PUSH2 dest JUMPI <a> JUMPDEST <b>
 			dest := 5 + a.Len()
